@@ -198,6 +198,31 @@ bool Parser::parseDeclaration(
                 parse_AtDeclarator);
 }
 
+/**
+ * A tag declared among the specifiers of a parameter declaration or of a type name
+ * (`void f(enum E { A } e);', `sizeof(struct S { int m; })') is a declaration as much
+ * as one among the specifiers of any other declaration: it stands in the specifier list
+ * as a TagDeclarationAsSpecifierSyntax.
+ */
+void Parser::adoptTagDeclarationAsSpecifier(DeclarationSyntax*& decl,
+                                            SpecifierListSyntax*& specList)
+{
+    if (!decl)
+        return;
+
+    auto tagDecl = static_cast<TagDeclarationSyntax*>(decl);
+    decl = nullptr;
+    for (auto iter = specList; iter; iter = iter->next) {
+        if (iter->value->asTagTypeSpecifier()
+                && iter->value == tagDecl->typeSpec_) {
+            auto tyDeclSpec = makeNode<TagDeclarationAsSpecifierSyntax>();
+            tyDeclSpec->tagDecl_ = tagDecl;
+            iter->value = tyDeclSpec;
+            break;
+        }
+    }
+}
+
 bool Parser::parseDeclarationOrStructDeclaration_AtFollowOfSpecifiers(
         DeclarationSyntax*& decl,
         SpecifierListSyntax*& specList,
@@ -904,6 +929,7 @@ bool Parser::parseParameterDeclaration(ParameterDeclarationSyntax*& paramDecl)
     SpecifierListSyntax* specList = nullptr;
     if (!parseDeclarationSpecifiers(decl, specList, DeclarationContext::Parameter))
         return false;
+    adoptTagDeclarationAsSpecifier(decl, specList);
 
     if (!specList) {
         switch (peek().kind()) {
@@ -977,6 +1003,7 @@ bool Parser::parseExtKR_ParameterDeclaration(ExtKR_ParameterDeclarationSyntax*& 
     SpecifierListSyntax* specList = nullptr;
     if (!parseDeclarationSpecifiers(decl, specList, DeclarationContext::Unspecified))
         return false;
+    adoptTagDeclarationAsSpecifier(decl, specList);
 
     paramDecl = makeNode<ExtKR_ParameterDeclarationSyntax>();
     paramDecl->specs_ = specList;
